@@ -1357,3 +1357,524 @@ Proof.
     rewrite <- H1. apply (WF_bt_keys_NoDup None None root Hwf).
   - unfold bt_keys. rewrite H2, H1, !map_app. reflexivity.
 Qed.
+(** ** 5. delete *)
+Lemma kids_remove lo hi keys ch i :
+  kids_ok lo hi keys ch -> (2 <= length keys)%nat -> (i < length ch)%nat ->
+  kids_ok lo hi (remove_at (i - 1) keys) (remove_at i ch).
+Proof.
+  intros (Hlen & Hs & Hw & Hsb & Hc & Hne) H2 Hi.
+  assert (i - 1 < length keys)%nat as Hr by lia.
+  assert (length (remove_at i ch) = (length ch - 1)%nat) as Hlc by (apply remove_at_length; exact Hi).
+  assert (length (remove_at (i - 1) keys) = (length keys - 1)%nat) as Hlk
+    by (apply remove_at_length; exact Hr).
+  split; [lia|]. split; [apply sorted_remove_at; exact Hs|].
+  split; [apply Forall_remove_at; exact Hw|]. split; [apply Forall_remove_at; exact Hsb|].
+  rewrite Forall_forall in Hsb.
+  rewrite Hlc. split; intros j Hj; rewrite (nth_remove_at dbt ch i j Hi).
+  - destruct (Nat.ltb_spec j i) as [C|C].
+    + (* children before the removed one *)
+      eapply WF_bt_widen; [apply Hc; lia| |].
+      * destruct j as [|j0]; cbn [lo_at]; [apply lo_le_refl|].
+        rewrite (nth_remove_at dk keys (i - 1) j0 Hr). dnat. apply lo_le_refl.
+      * unfold hi_at. rewrite Hlk, (nth_remove_at dk keys (i - 1) j Hr). dnat.
+        -- apply hi_le_refl.
+        -- cbn. apply sorted_nth_le; [exact Hs|lia|lia].
+        -- apply hi_ok_le. apply Hsb. apply nth_In. lia.
+    + (* children after it *)
+      eapply WF_bt_widen; [apply Hc; lia| |].
+      * destruct j as [|j0]; cbn [lo_at].
+        -- apply lo_lt_le. apply Hsb. apply nth_In. lia.
+        -- rewrite (nth_remove_at dk keys (i - 1) j0 Hr). dnat. apply lo_le_refl.
+      * unfold hi_at. rewrite Hlk, (nth_remove_at dk keys (i - 1) j Hr). dnat; apply hi_le_refl.
+  - destruct (Nat.ltb_spec j i); apply Hne; lia.
+Qed.
+
+Definition dres_ids (r : delres) : list N := match r with DKept t => bt_ids t | DGone => [] end.
+
+Lemma bt_delete_spec k fuel : forall t lo hi,
+  WF_bt lo hi t -> kt_wf k = true -> In k (bt_keys t) -> (bt_height t < fuel)%nat ->
+  exists res ret,
+    bt_delete fuel t k = Some (res, ret) /\
+    Permutation (bt_ids t) (ret ++ dres_ids res) /\
+    match res with
+    | DGone => exists l s, t = BLeaf l /\ leaf_entries l = [s] /\ sl_key s = k /\ ret = [lf_id l]
+    | DKept t' =>
+      WF_bt lo hi t' /\ bt_elems t' <> [] /\
+      exists A s B, bt_elems t = A ++ s :: B /\ sl_key s = k /\ bt_elems t' = A ++ B
+    end.
+Proof.
+  induction fuel as [|f IH]; intros t lo hi Hwf Hk Hin Hh; [lia|].
+  destruct t as [l|id ver keys ch]; cbn [bt_delete].
+  - (* leaf *)
+    apply WF_leaf_iff in Hwf. destruct Hwf as [Hl Hb].
+    change (bt_keys (BLeaf l)) with (leaf_keys l) in Hin.
+    destruct (leaf_lookup_in l k Hl Hk Hin) as (r & slot & s & E & Hr & Hsk & _).
+    rewrite E. pose proof (leaf_ranked_entries l r slot s Hr) as Hre.
+    pose proof (leaf_entries_length l) as Hlen.
+    assert (r < length (leaf_entries l))%nat as Hrl by (apply nth_error_Some; congruence).
+    destruct (N.eqb_spec (leaf_cnk l) 1) as [E1|N1].
+    + exists DGone, [lf_id l]. split; [reflexivity|]. split; [apply Permutation_refl|].
+      exists l, s. split; [reflexivity|]. split; [|split; [exact Hsk|reflexivity]].
+      rewrite E1 in Hlen. change (N.to_nat 1) with 1%nat in Hlen.
+      destruct (leaf_entries l) as [|a [|b e]]; cbn in Hlen; try lia.
+      destruct r as [|r]; [|cbn in Hrl; lia]. cbn in Hre. congruence.
+    + destruct (leaf_delete_spec l r slot s Hl Hr) as (D1 & D2 & D3).
+      exists (DKept (BLeaf (leaf_delete l r slot))), []. split; [reflexivity|].
+      split; [cbn [app dres_ids bt_ids]; rewrite D3; apply Permutation_refl|].
+      split.
+      { apply WF_leaf_iff. split; [exact D2|].
+        rewrite (leaf_delete_keys l r slot s Hl Hr). apply Forall_remove_at. exact Hb. }
+      cbn [bt_elems]. rewrite D1. split.
+      { intros X. apply (f_equal (@length _)) in X. rewrite remove_at_length in X by exact Hrl.
+        cbn in X. lia. }
+      exists (firstn r (leaf_entries l)), s, (skipn (S r) (leaf_entries l)).
+      split; [|split; [exact Hsk|reflexivity]].
+      rewrite (split_at_nth empty_slot _ r Hrl) at 1. f_equal. f_equal.
+      apply nth_error_nth. exact Hre.
+  - (* interior *)
+    apply WF_int_iff in Hwf. destruct Hwf as [Hn Hkids].
+    destruct (kids_route lo hi keys ch k Hkids Hk) as (Hi & _ & Hroute).
+    set (i := route keys k 0) in *.
+    pose proof Hkids as (Hlen & Hs & Hw & Hsb & Hc & Hne).
+    rewrite (nth_error_child ch i Hi).
+    set (c := nth i ch dbt) in *.
+    assert (In k (bt_keys c)) as Hinc.
+    { apply in_keys_in_elems in Hin. destruct Hin as (s & Hs1 & Hs2).
+      rewrite <- Hs2. apply in_elems_in_keys. apply Hroute; assumption. }
+    destruct (IH c _ _ (Hc i Hi) Hk Hinc) as (res & ret & E & Hperm & Hres).
+    { pose proof (height_child id ver keys ch i Hi). fold c in H. lia. }
+    rewrite E.
+    set (P := flat_map bt_ids (firstn i ch)) in *. set (Q := flat_map bt_ids (skipn (S i) ch)) in *.
+    assert (bt_ids (BInt id ver keys ch) = id :: P ++ bt_ids c ++ Q) as Hids
+      by (apply bt_ids_split; exact Hi).
+    pose proof (bt_elems_split id ver keys ch i Hi) as Hels. fold c in Hels.
+    destruct res as [c'|].
+    + (* the child survives *)
+      destruct Hres as (Hwc' & Hnc' & A & s & B & HA & Hsk & HB).
+      exists (DKept (BInt id ver keys (set_nth i c' ch))), ret. split; [reflexivity|].
+      split.
+      { rewrite Hids. cbn [dres_ids bt_ids]. rewrite flat_map_set_nth by exact Hi.
+        apply perm_ctx. exact Hperm. }
+      pose proof (kids_set lo hi keys ch i c' Hkids Hi Hwc' Hnc') as K.
+      split; [apply WF_int_iff; split; [exact Hn|exact K]|].
+      split; [cbn [bt_elems]; eapply kids_nonempty; exact K|].
+      exists (flat_map bt_elems (firstn i ch) ++ A), s, (B ++ flat_map bt_elems (skipn (S i) ch)).
+      split; [rewrite Hels, HA, <- !app_assoc; reflexivity|]. split; [exact Hsk|].
+      cbn [bt_elems]. rewrite flat_map_set_nth by exact Hi. rewrite HB, <- !app_assoc. reflexivity.
+    + (* the child (a leaf) is gone *)
+      destruct Hres as (l & s & Hcl & Hentries & Hsk & ->).
+      assert (bt_elems c = [s]) as Hec by (rewrite Hcl; exact Hentries).
+      assert (bt_ids c = [lf_id l]) as Hic by (rewrite Hcl; reflexivity).
+      destruct (Nat.eqb_spec (length keys) 1) as [E1|N1].
+      * (* promotion of the sibling *)
+        destruct ch as [|c0 [|c1 [|c2 ch]]]; cbn [length] in Hlen; try lia.
+        assert (sep_bnd lo hi (nth 0 keys dk)) as [Hb1 Hb2].
+        { rewrite Forall_forall in Hsb. apply Hsb. apply nth_In. lia. }
+        assert (i = 0 \/ i = 1)%nat as Hi01 by (cbn [length] in Hi; lia).
+        unfold P, Q in Hids. unfold c in *.
+        destruct Hi01 as [Ei|Ei]; rewrite Ei in *; cbn [Nat.sub nth_error nth firstn skipn flat_map app] in *.
+        -- exists (DKept c1), ([lf_id l] ++ [id]). split; [reflexivity|]. split.
+           { rewrite Hids, Hic, !app_nil_r. cbn [app dres_ids]. apply perm_swap. }
+           split.
+           { eapply WF_bt_widen; [apply (Hc 1%nat); cbn; lia| |].
+             - cbn [lo_at]. apply lo_lt_le. exact Hb1.
+             - unfold hi_at. rewrite E1. cbn. apply hi_le_refl. }
+           split; [apply (Hne 1%nat); cbn; lia|].
+           exists [], s, (bt_elems c1). rewrite Hels, Hec, app_nil_r. cbn [app].
+           split; [reflexivity|]. split; [exact Hsk|reflexivity].
+        -- exists (DKept c0), ([lf_id l] ++ [id]). split; [reflexivity|]. split.
+           { rewrite Hids, Hic, !app_nil_r. cbn [app dres_ids].
+             apply Permutation_trans with (id :: lf_id l :: bt_ids c0).
+             - apply perm_skip. apply Permutation_sym. apply Permutation_cons_append.
+             - apply perm_swap. }
+           split.
+           { eapply WF_bt_widen; [apply (Hc 0%nat); cbn; lia| |].
+             - cbn [lo_at]. apply lo_le_refl.
+             - unfold hi_at. rewrite E1. cbn. apply hi_ok_le. exact Hb2. }
+           split; [apply (Hne 0%nat); cbn; lia|].
+           exists (bt_elems c0), s, []. rewrite Hels, Hec, !app_nil_r.
+           split; [reflexivity|]. split; [exact Hsk|reflexivity].
+      * assert ((if Nat.eqb i 0 then remove_nth 0 keys else remove_nth (i - 1) keys)
+                = remove_at (i - 1) keys) as ->.
+        { unfold remove_nth. destruct (Nat.eqb_spec i 0) as [->|_]; reflexivity. }
+        unfold remove_nth.
+        pose proof (kids_remove lo hi keys ch i Hkids ltac:(lia) Hi) as K.
+        eexists. eexists. split; [reflexivity|]. split.
+        { rewrite Hids, Hic. cbn [dres_ids bt_ids]. rewrite flat_map_remove_at. fold P Q.
+          change (P ++ Q) with (P ++ [] ++ Q). apply perm_ctx. apply Permutation_refl. }
+        split.
+        { apply WF_int_iff. split; [|exact K]. rewrite remove_at_length by lia. lia. }
+        split; [cbn [bt_elems]; eapply kids_nonempty; exact K|].
+        exists (flat_map bt_elems (firstn i ch)), s, (flat_map bt_elems (skipn (S i) ch)).
+        split; [rewrite Hels, Hec; reflexivity|]. split; [exact Hsk|].
+        cbn [bt_elems]. apply flat_map_remove_at.
+Qed.
+
+Lemma NoDup_app_inv {A} (a b : list A) :
+  NoDup (a ++ b) -> NoDup a /\ NoDup b /\ (forall x, In x a -> In x b -> False).
+Proof.
+  induction a as [|y a IH]; intros H.
+  - split; [constructor|]. split; [exact H|]. intros x [].
+  - cbn [app] in H. apply NoDup_cons_iff in H. destruct H as [Hy H].
+    destruct (IH H) as (H1 & H2 & H3). split.
+    + constructor; [|exact H1]. intros X. apply Hy. apply in_or_app. left. exact X.
+    + split; [exact H2|]. intros x [->|Hx] Hb.
+      * apply Hy. apply in_or_app. right. exact Hb.
+      * exact (H3 x Hx Hb).
+Qed.
+
+Corollary bt_delete_ids k fuel t lo hi res ret :
+  WF_bt lo hi t -> NoDup (bt_ids t) -> kt_wf k = true -> In k (bt_keys t) -> (bt_height t < fuel)%nat ->
+  bt_delete fuel t k = Some (res, ret) ->
+  NoDup (dres_ids res) /\ NoDup ret /\ incl (dres_ids res) (bt_ids t) /\ incl ret (bt_ids t) /\
+  (forall x, In x ret -> ~ In x (dres_ids res)) /\
+  (forall x, In x (bt_ids t) -> In x ret \/ In x (dres_ids res)).
+Proof.
+  intros Hwf Hnd Hk Hin Hh E.
+  destruct (bt_delete_spec k fuel t lo hi Hwf Hk Hin Hh) as (res' & ret' & E' & Hperm & _).
+  rewrite E in E'. injection E' as <- <-.
+  pose proof (Permutation_NoDup Hperm Hnd) as Hnd'.
+  assert (forall x, In x (ret ++ dres_ids res) -> In x (bt_ids t)) as Hsub
+    by (intros x Hx; eapply Permutation_in; [apply Permutation_sym; exact Hperm|exact Hx]).
+  destruct (NoDup_app_inv _ _ Hnd') as (N1 & N2 & N3).
+  split; [exact N2|]. split; [exact N1|].
+  split; [intros x Hx; apply Hsub; apply in_or_app; right; exact Hx|].
+  split; [intros x Hx; apply Hsub; apply in_or_app; left; exact Hx|]. split.
+  - intros x Hx1 Hx2. exact (N3 x Hx1 Hx2).
+  - intros x Hx. apply in_app_or. eapply Permutation_in; [exact Hperm|exact Hx].
+Qed.
+(** ** 6. the layer map *)
+Lemma prefix_eqb_eq a b : prefix_eqb a b = true <-> a = b.
+Proof.
+  revert b. induction a as [|x a IH]; intros [|y b]; cbn [prefix_eqb].
+  - split; reflexivity.
+  - split; discriminate.
+  - split; discriminate.
+  - rewrite andb_true_iff, N.eqb_eq, IH. split.
+    + intros [-> ->]. reflexivity.
+    + intros H. injection H as -> ->. split; reflexivity.
+Qed.
+
+Lemma prefix_eqb_refl a : prefix_eqb a a = true.
+Proof. apply prefix_eqb_eq. reflexivity. Qed.
+
+Lemma prefix_eqb_neq a b : a <> b -> prefix_eqb a b = false.
+Proof.
+  intros H. destruct (prefix_eqb a b) eqn:E; [|reflexivity]. apply prefix_eqb_eq in E. contradiction.
+Qed.
+
+Lemma prefix_eqb_spec a b : reflect (a = b) (prefix_eqb a b).
+Proof.
+  destruct (prefix_eqb a b) eqn:E; constructor.
+  - apply prefix_eqb_eq. exact E.
+  - intros H. apply prefix_eqb_eq in H. congruence.
+Qed.
+
+Lemma layer_get_set_same ls p t : layer_get (layer_set ls p t) p = Some t.
+Proof.
+  induction ls as [|[q u] ls IH]; cbn [layer_set layer_get].
+  - rewrite prefix_eqb_refl. reflexivity.
+  - destruct (prefix_eqb q p) eqn:E; cbn [layer_get]; rewrite E; [reflexivity|exact IH].
+Qed.
+
+Lemma layer_get_set_other ls p q t : p <> q -> layer_get (layer_set ls p t) q = layer_get ls q.
+Proof.
+  intros Hne. induction ls as [|[r u] ls IH]; cbn [layer_set layer_get].
+  - rewrite (prefix_eqb_neq p q Hne). reflexivity.
+  - destruct (prefix_eqb_spec r p) as [->|Hrp]; cbn [layer_get].
+    + rewrite (prefix_eqb_neq p q Hne). reflexivity.
+    + destruct (prefix_eqb r q); [reflexivity|exact IH].
+Qed.
+
+Lemma layer_get_del_other ls p q : p <> q -> layer_get (layer_del ls p) q = layer_get ls q.
+Proof.
+  intros Hne. induction ls as [|[r u] ls IH]; cbn [layer_del layer_get]; [reflexivity|].
+  destruct (prefix_eqb_spec r p) as [->|Hrp]; cbn [layer_get].
+  - rewrite (prefix_eqb_neq p q Hne). reflexivity.
+  - destruct (prefix_eqb r q); [reflexivity|exact IH].
+Qed.
+
+Lemma layer_get_none ls p : layer_get ls p = None <-> ~ In p (map fst ls).
+Proof.
+  induction ls as [|[q u] ls IH]; cbn [layer_get map fst In].
+  - split; [intros _ []|reflexivity].
+  - destruct (prefix_eqb_spec q p) as [->|Hne].
+    + split; [discriminate|]. intros H. exfalso. apply H. left. reflexivity.
+    + rewrite IH. split.
+      * intros H [X|X]; [contradiction|exact (H X)].
+      * intros H X. apply H. right. exact X.
+Qed.
+
+Lemma layer_get_in ls p t : layer_get ls p = Some t -> In (p, t) ls.
+Proof.
+  induction ls as [|[q u] ls IH]; cbn [layer_get]; [discriminate|].
+  destruct (prefix_eqb_spec q p) as [->|Hne].
+  - intros H. injection H as ->. left. reflexivity.
+  - intros H. right. apply IH. exact H.
+Qed.
+
+Lemma layer_get_del_same ls p : NoDup (map fst ls) -> layer_get (layer_del ls p) p = None.
+Proof.
+  induction ls as [|[q u] ls IH]; intros Hnd; cbn [layer_del]; [reflexivity|].
+  cbn [map fst] in Hnd. apply NoDup_cons_iff in Hnd. destruct Hnd as [Hq Hnd].
+  destruct (prefix_eqb_spec q p) as [->|Hne].
+  - apply layer_get_none. exact Hq.
+  - cbn [layer_get]. rewrite (prefix_eqb_neq q p Hne). apply IH. exact Hnd.
+Qed.
+
+Lemma layer_set_keys ls p t :
+  map fst (layer_set ls p t) =
+    match layer_get ls p with Some _ => map fst ls | None => map fst ls ++ [p] end.
+Proof.
+  induction ls as [|[q u] ls IH]; cbn [layer_set layer_get map fst app]; [reflexivity|].
+  destruct (prefix_eqb q p); cbn [map fst]; [reflexivity|]. rewrite IH.
+  destruct (layer_get ls p); reflexivity.
+Qed.
+
+Lemma layer_set_NoDup ls p t : NoDup (map fst ls) -> NoDup (map fst (layer_set ls p t)).
+Proof.
+  intros H. rewrite layer_set_keys. destruct (layer_get ls p) eqn:E; [exact H|].
+  apply layer_get_none in E. apply NoDup_app_intro; [exact H|constructor; [intros []|constructor]|].
+  intros x Hx [<-|[]]. exact (E Hx).
+Qed.
+
+Lemma layer_del_keys_incl ls p x : In x (map fst (layer_del ls p)) -> In x (map fst ls).
+Proof.
+  induction ls as [|[q u] ls IH]; cbn [layer_del map fst]; [auto|].
+  destruct (prefix_eqb q p); cbn [map fst In]; [intros H; right; exact H|].
+  intros [H|H]; [left; exact H|right; apply IH; exact H].
+Qed.
+
+Lemma layer_del_NoDup ls p : NoDup (map fst ls) -> NoDup (map fst (layer_del ls p)).
+Proof.
+  induction ls as [|[q u] ls IH]; intros Hnd; cbn [layer_del]; [exact Hnd|].
+  cbn [map fst] in Hnd. apply NoDup_cons_iff in Hnd. destruct Hnd as [Hq Hnd].
+  destruct (prefix_eqb q p); [exact Hnd|]. cbn [map fst]. constructor; [|apply IH; exact Hnd].
+  intros X. apply Hq. eapply layer_del_keys_incl. exact X.
+Qed.
+
+(** ** 6. layer_remove *)
+Theorem layer_remove_spec ls p k root :
+  layer_get ls p = Some root -> WF_layer root -> kt_wf k = true -> In k (bt_keys root) ->
+  exists ls' gone ret,
+    layer_remove ls p k = Some (ls', gone, ret) /\
+    ((* the layer keeps a non-empty tree *)
+     (gone = false /\
+      exists root' root'',
+        bt_delete (S (bt_height root)) root k = Some (DKept root', ret) /\
+        root'' = (if N.eqb (bt_id root') (bt_id root) then root' else set_root_flag root' true) /\
+        ls' = layer_set ls p root'' /\ WF_layer root'' /\ bt_elems root'' <> [] /\
+        (exists A s B, bt_elems root = A ++ s :: B /\ sl_key s = k /\ bt_elems root'' = A ++ B) /\
+        Permutation (bt_ids root) (ret ++ bt_ids root''))
+     \/
+     (* a lower layer vanishes with its only entry *)
+     (gone = true /\ p <> [] /\ ls' = layer_del ls p /\
+      exists l s, root = BLeaf l /\ leaf_entries l = [s] /\ sl_key s = k /\ ret = [lf_id l])
+     \/
+     (* the top layer's root leaf stays, now empty *)
+     (gone = false /\ p = [] /\ ret = [] /\
+      exists l s l'', root = BLeaf l /\ leaf_entries l = [s] /\ sl_key s = k /\
+                      ls' = layer_set ls p (BLeaf l'') /\ WF_layer (BLeaf l'') /\
+                      leaf_entries l'' = [] /\ lf_id l'' = lf_id l)).
+Proof.
+  intros Hget [Hwf Hnd] Hk Hin. unfold layer_remove. rewrite Hget.
+  destruct (bt_delete_spec k (S (bt_height root)) root None None Hwf Hk Hin ltac:(lia))
+    as (res & ret & E & Hperm & Hres).
+  rewrite E. destruct res as [root'|].
+  - destruct Hres as (Hwf' & Hne' & Hel).
+    eexists. exists false, ret. split; [reflexivity|]. left. split; [reflexivity|].
+    exists root'. eexists. split; [reflexivity|]. split; [reflexivity|]. split; [reflexivity|].
+    cbn [dres_ids] in Hperm.
+    pose proof (Permutation_NoDup Hperm Hnd) as Hnd'. apply NoDup_app_inv in Hnd'.
+    destruct Hnd' as (_ & Hnd' & _).
+    destruct (N.eqb (bt_id root') (bt_id root)).
+    + split; [split; assumption|]. split; [exact Hne'|]. split; [exact Hel|exact Hperm].
+    + rewrite set_root_flag_elems, set_root_flag_ids.
+      split; [apply set_root_flag_WF_layer; split; assumption|].
+      split; [exact Hne'|]. split; [exact Hel|exact Hperm].
+  - destruct Hres as (l & s & -> & Hentries & Hsk & ->).
+    destruct p as [|x p].
+    + apply WF_leaf_iff in Hwf. destruct Hwf as [Hl _].
+      change (bt_keys (BLeaf l)) with (leaf_keys l) in Hin.
+      destruct (leaf_lookup_in l k Hl Hk Hin) as (r & slot & s' & El & Hr & _).
+      rewrite El. destruct (leaf_delete_spec l r slot s' Hl Hr) as (D1 & D2 & D3).
+      set (l' := leaf_delete l r slot) in *.
+      set (l'' := leaf_with l' (set_deleted (lf_ver l') true) (lf_perm l') (lf_slots l')).
+      eexists. exists false, []. split; [reflexivity|]. right. right.
+      split; [reflexivity|]. split; [reflexivity|]. split; [reflexivity|].
+      exists l, s, l''. split; [reflexivity|]. split; [exact Hentries|]. split; [exact Hsk|].
+      split; [reflexivity|].
+      assert (leaf_entries l'' = []) as He''.
+      { unfold l''. rewrite leaf_entries_with_ver, D1, Hentries.
+        pose proof (leaf_ranked_entries l r slot s' Hr) as X. rewrite Hentries in X.
+        destruct r as [|r]; [reflexivity|]. destruct r; discriminate. }
+      split; [|split; [exact He''|exact D3]].
+      split; [|constructor; [intros []|constructor]].
+      apply WF_leaf_iff. split; [apply WF_leaf_with_ver; exact D2|].
+      unfold leaf_keys. rewrite He''. constructor.
+    + eexists. exists true, [lf_id l]. split; [reflexivity|]. right. left.
+      split; [reflexivity|]. split; [discriminate|]. split; [reflexivity|].
+      exists l, s. repeat split; assumption.
+Qed.
+
+(** ** repeated insertion (to build well-formed layers) *)
+Fixpoint put_all (t : bt) (ctr : N) (kvs : list (ktuple * lvw)) : option (bt * N) :=
+  match kvs with
+  | [] => Some (t, ctr)
+  | (k, lv) :: r =>
+    match layer_put t k lv ctr with
+    | Some (t', _, c') => put_all t' c' r
+    | None => None
+    end
+  end.
+
+Lemma put_all_spec kvs : forall t ctr,
+  WF_layer t -> (forall i, In i (bt_ids t) -> (i < ctr)%N) ->
+  Forall (fun kv => kt_wf (fst kv) = true /\ entry_ok {| sl_key := fst kv; sl_lv := snd kv |}) kvs ->
+  NoDup (map fst kvs) -> (forall k, In k (map fst kvs) -> ~ In k (bt_keys t)) ->
+  exists t' ctr',
+    put_all t ctr kvs = Some (t', ctr') /\ WF_layer t' /\
+    (forall i, In i (bt_ids t') -> (i < ctr')%N) /\
+    Permutation (bt_elems t')
+                (map (fun kv => {| sl_key := fst kv; sl_lv := snd kv |}) kvs ++ bt_elems t).
+Proof.
+  induction kvs as [|[k lv] kvs IH]; intros t ctr Hwf Hctr Hall Hnd Hfresh.
+  - exists t, ctr. split; [reflexivity|]. split; [exact Hwf|]. split; [exact Hctr|apply Permutation_refl].
+  - apply Forall_cons_iff in Hall. destruct Hall as [[Hk Hok] Hall]. cbn [fst snd] in Hk, Hok.
+    cbn [map fst] in Hnd, Hfresh. apply NoDup_cons_iff in Hnd. destruct Hnd as [Hkn Hnd].
+    destruct (layer_put_spec t k lv ctr Hwf Hk (Hfresh k (or_introl eq_refl)) Hok Hctr)
+      as (t1 & info & c1 & E & Hwf1 & _ & _ & Hperm & _ & Hctr1 & _).
+    destruct (IH t1 c1 Hwf1 Hctr1 Hall Hnd) as (t' & c' & E' & Hwf' & Hctr' & Hperm').
+    { intros k' Hk' X. unfold bt_keys in X.
+      apply (Permutation_in _ (Permutation_map sl_key Hperm)) in X. cbn [map sl_key] in X.
+      destruct X as [<-|X]; [exact (Hkn Hk')|]. exact (Hfresh k' (or_intror Hk') X). }
+    exists t', c'. cbn [put_all]. rewrite E. split; [exact E'|]. split; [exact Hwf'|].
+    split; [exact Hctr'|]. cbn [map fst snd app].
+    eapply Permutation_trans; [exact Hperm'|].
+    eapply Permutation_trans; [apply Permutation_app_head; exact Hperm|].
+    apply Permutation_sym. apply Permutation_middle.
+Qed.
+
+Lemma single_leaf_WF_layer id k lv :
+  entry_ok {| sl_key := k; sl_lv := lv |} ->
+  WF_layer (BLeaf (single_leaf id k lv)) /\
+  bt_elems (BLeaf (single_leaf id k lv)) = [{| sl_key := k; sl_lv := lv |}] /\
+  bt_ids (BLeaf (single_leaf id k lv)) = [id].
+Proof.
+  intros Hok. destruct (single_leaf_spec id k lv Hok) as (H1 & H2 & H3).
+  split; [|split; [exact H2|cbn [bt_ids]; rewrite H3; reflexivity]].
+  split.
+  - apply WF_leaf_iff. split; [exact H1|]. unfold leaf_keys. rewrite H2.
+    constructor; [split; exact I|constructor].
+  - cbn [bt_ids]. constructor; [intros []|constructor].
+Qed.
+
+Lemma empty_leaf_WF_layer id v :
+  WF_layer (BLeaf {| lf_id := id; lf_ver := v; lf_perm := 0; lf_slots := fresh_slots |}) /\
+  bt_elems (BLeaf {| lf_id := id; lf_ver := v; lf_perm := 0; lf_slots := fresh_slots |}) = [].
+Proof.
+  destruct (empty_leaf_WF id v) as [H1 H2]. split; [|exact H2]. split.
+  - apply WF_leaf_iff. split; [exact H1|]. unfold leaf_keys. rewrite H2. constructor.
+  - cbn [bt_ids]. constructor; [intros []|constructor].
+Qed.
+
+(** ** sanity: the hypotheses are satisfiable on a two-level layer, and the
+    conclusions are what the executable model computes *)
+Module LayerExample.
+  Local Open Scope N_scope.
+  Definition kk (i : N) : ktuple := {| ks := (i * 37 mod 101) * 256; kl := 7 |}.
+  Definition vv (i : N) : lvw := LValue {| v_id := i; v_bytes := []; v_align := 8; v_inline := false |}.
+  Definition kvs : list (ktuple * lvw) := map (fun i => (kk (N.of_nat i), vv (N.of_nat i))) (seq 1 40).
+  Definition root0 : bt := BLeaf (single_leaf 1 (kk 0) (vv 0)).
+  Definition t40 : bt := match put_all root0 2 kvs with Some (t, _) => t | None => root0 end.
+
+  Example t40_shape : bt_height t40 = 1%nat /\ length (bt_elems t40) = 41%nat /\
+                      length (bt_leaves t40) = 4%nat.
+  Proof. vm_compute. repeat split. Qed.
+
+  Fixpoint nodupb (l : list ktuple) : bool :=
+    match l with [] => true | a :: r => negb (existsb (kt_eq a) r) && nodupb r end.
+  Lemma existsb_kt_eq_false a l : existsb (kt_eq a) l = false -> ~ In a l.
+  Proof.
+    intros H X. assert (existsb (kt_eq a) l = true) as Y; [|congruence].
+    apply existsb_exists. exists a. split; [exact X|]. apply (proj1 (kt_eq_canon a a)). reflexivity.
+  Qed.
+  Lemma nodupb_sound l : nodupb l = true -> NoDup l.
+  Proof.
+    induction l as [|a l IH]; cbn [nodupb]; intros H; [constructor|].
+    apply andb_true_iff in H. destruct H as [H1 H2]. apply negb_true_iff in H1.
+    constructor; [apply existsb_kt_eq_false; exact H1|apply IH; exact H2].
+  Qed.
+
+  Example t40_WF : WF_layer t40.
+  Proof.
+    assert (entry_ok {| sl_key := kk 0; sl_lv := vv 0 |}) as Hok0
+      by (split; [vm_compute; reflexivity|cbn; lia]).
+    destruct (single_leaf_WF_layer 1 (kk 0) (vv 0) Hok0) as (H1 & H2 & H3). fold root0 in H1, H2, H3.
+    destruct (put_all_spec kvs root0 2 H1) as (t' & c' & E & Hwf & _).
+    - rewrite H3. intros i [<-|[]]. lia.
+    - let e := eval vm_compute in kvs in change kvs with e.
+      repeat (apply Forall_cons; [split; [vm_compute; reflexivity|split; [vm_compute; reflexivity|cbn; lia]]|]).
+      apply Forall_nil.
+    - apply nodupb_sound. vm_compute. reflexivity.
+    - intros k Hk X. unfold bt_keys in X. rewrite H2 in X. cbn [map sl_key In] in X.
+      destruct X as [<-|[]]. revert Hk. apply existsb_kt_eq_false. vm_compute. reflexivity.
+    - unfold t40. rewrite E. exact Hwf.
+  Qed.
+
+  Example t40_lookup : layer_lookup t40 (kk 5) = Some {| sl_key := kk 5; sl_lv := vv 5 |}.
+  Proof. vm_compute. reflexivity. Qed.
+
+  Example t40_has_5 : In (kk 5) (bt_keys t40).
+  Proof.
+    pose proof t40_WF as [Hwf _].
+    pose proof t40_lookup as L.
+    apply (layer_lookup_some t40 (kk 5) _ Hwf) in L; [|vm_compute; reflexivity].
+    destruct L as [H _]. apply in_elems_in_keys in H. exact H.
+  Qed.
+
+  (* the delete and layer_remove theorems apply, and describe what the model computes *)
+  Example t40_remove_applies :
+    exists ls' gone ret, layer_remove [([], t40)] [] (kk 5) = Some (ls', gone, ret) /\ gone = false.
+  Proof.
+    destruct (layer_remove_spec [([], t40)] [] (kk 5) t40 eq_refl t40_WF ltac:(vm_compute; reflexivity) t40_has_5)
+      as (ls' & gone & ret & E & [(G & _)|[(G & Hp & _)|(G & _)]]).
+    - exists ls', gone, ret. split; assumption.
+    - exfalso. apply Hp. reflexivity.
+    - exists ls', gone, ret. split; assumption.
+  Qed.
+
+  Example t40_remove_computed :
+    match layer_remove [([], t40)] [] (kk 5) with
+    | Some ([(_, t)], gone, ret) => (length (bt_elems t), gone, ret, existsb (kt_eq (kk 5)) (bt_keys t))
+    | _ => (0%nat, true, [], true)
+    end = (40%nat, false, [], false).
+  Proof. vm_compute. reflexivity. Qed.
+End LayerExample.
+
+(** ** axiom audit *)
+Print Assumptions bt_elems_sorted.
+Print Assumptions sorted_perm_eq.
+Print Assumptions WF_bt_widen.
+Print Assumptions bt_set_ver_WF.
+Print Assumptions find_leaf_spec.
+Print Assumptions bt_find_leaf_fuel.
+Print Assumptions layer_lookup_some.
+Print Assumptions layer_lookup_none.
+Print Assumptions find_leaf_lookup.
+Print Assumptions bt_put_spec.
+Print Assumptions layer_put_spec.
+Print Assumptions put_all_spec.
+Print Assumptions bt_update_leaf_spec.
+Print Assumptions layer_update_spec.
+Print Assumptions bt_delete_spec.
+Print Assumptions bt_delete_ids.
+Print Assumptions layer_remove_spec.
+Print Assumptions layer_get_set_same.
+Print Assumptions layer_get_set_other.
+Print Assumptions layer_get_del_same.
+Print Assumptions layer_get_del_other.
+Print Assumptions bt_leaves_elems.
+Print Assumptions bt_leaves_WF.
+Print Assumptions bt_leaves_nonempty_root.
+Print Assumptions LayerExample.t40_WF.
